@@ -7,7 +7,7 @@ individual's values instead of the initial value it uses on the same model loade
   joint:    ValueError (the 3 training rows are put into a 1-individual table).
 Exit status 1 when the defect is present, 0 otherwise.
 """
-import contextlib, io, sys, warnings
+import contextlib, io, os, sys, warnings
 
 import pandas as pd
 
@@ -43,4 +43,5 @@ for kind in ("logistic", "joint"):
     ok = isinstance(got, dict) and (kind == "joint" or got == ref)
     print(f"{kind}: fitted object  -> {got}\n{kind}: reloaded file  -> {ref}\n{kind}: {'ok' if ok else 'DEFECT'}")
     bad |= not ok
+os.remove("/var/tmp/C13_D6_model.json")
 sys.exit(1 if bad else 0)
